@@ -241,7 +241,10 @@ class Exec(CMixin, ExprMixin, StmtMixin, CallMixin):
             for g, text in contract.bind.items():
                 self.frame.ghost[g] = self.eval_spec(text, st)
             for r in contract.requires:
-                st.assume(zbool(self.eval_spec(r, st)))
+                e = self.eval_spec(r, st)
+                if e is False:
+                    raise CannotBind('precondition %r of %s is literally false (vacuous contract)' % (r, contract.name))
+                st.assume(zbool(e))
         self.entry_pc_len = len(st.pc)
         exc = None
         try:
